@@ -129,6 +129,12 @@ def _key_is_total(fi: FuncInfo, call: ast.Call) -> Tuple[bool, str]:
         if k.arg == "key":
             key = k.value
     if key is None:
+        a0 = call.args[0] if call.args else None
+        if call.func.id in ("min", "max") and isinstance(a0, ast.GeneratorExp) and isinstance(a0.elt, (ast.BinOp, ast.Attribute, ast.Call, ast.Constant)):  # type: ignore[attr-defined]
+            tv = {n.id for g in a0.generators for n in ast.walk(g.target) if isinstance(n, ast.Name)}
+            if not (isinstance(a0.elt, ast.Name) and a0.elt.id in tv):
+                # min/max of derived scalar values: whichever element attains it, the *value* returned is the same
+                return True, "aggregates derived values (the result is a value, not an element)"
         return False, "no key (elements compared directly)"
     if isinstance(key, ast.Lambda):
         body = key.body
